@@ -1,7 +1,7 @@
 (* C06/Properties.v — property theorems only (each closed by [exact lemma] and followed by
    [Print Assumptions]).  Model: C06/Model.v (the code after fix commits 3a7f18b, 811f017, 2c8a29b). *)
 From Coq Require Import String Permutation Morphisms Sorted.
-From RM Require Import C06.Model C06.GenModel C06.Proofs C06.Proofs2 C06.Proofs3 C06.Proofs4 C06.Proofs5 C06.Proofs6 C06.Proofs7 C06.Proofs8 C06.Proofs9 C06.Proofs10 C06.Proofs11 C06.Proofs12 C06.Proofs13 C06.Proofs14 C06.Proofs15 C06.Proofs16 C06.Driver C06.GenDriver C06.ArchDriver C06.FileTable Gen.UnwindConsts Gen.CfiOps.
+From RM Require Import C06.Model C06.GenModel C06.Proofs C06.Proofs2 C06.Proofs3 C06.Proofs4 C06.Proofs5 C06.Proofs6 C06.Proofs7 C06.Proofs8 C06.Proofs9 C06.Proofs10 C06.Proofs11 C06.Proofs12 C06.Proofs13 C06.Proofs14 C06.Proofs15 C06.Proofs16 C06.Proofs17 C06.Driver C06.GenDriver C06.ArchDriver C06.FileTable Gen.UnwindConsts Gen.CfiOps.
 From RM Require Import Base.Word C08.Model C08.Tie Gen.C08Tables.
 Open Scope Z_scope.
 
@@ -554,7 +554,9 @@ Print Assumptions c06_arch_tables_wellformed.
    non-aliasing targets: the extracted entry point the correspondence run compares with walk_stack equals the
    documented result cfi_spec_real (CFA first and not self-referential, .ra mandatory, every other register set from
    its rule or unknown, width check, aliases resolved through memoize_register) followed by the hand-over of
-   <arch>::get_caller_frame. *)
+   <arch>::get_caller_frame.  The guards in front: walk_stack unwinds only with a stack memory that has a range
+   (stack_ok = C08's mk_range of base and length), the unwinder needs a valid stack pointer, and the instruction must
+   lie in the module the symbols belong to. *)
 Theorem c06_real_end_to_end :
   forall k ctx valid stackbase stack initaddr initsize init deltas,
     ctx_wf ctx -> bytes_wf stack ->
@@ -565,7 +567,8 @@ Theorem c06_real_end_to_end :
     let E := real_env2 k ctx valid stackbase stack ip in
     all_documented r (ip - 1073741824) -> real_documented_nonaliasing a r (ip - 1073741824) ->
     run_real2_gen k ctx valid stackbase stack initaddr initsize init deltas =
-      if negb (match valid with None => true | Some which => mem_b (a_sp a) which end)
+      if negb (stack_ok stackbase stack)
+         || negb (match valid with None => true | Some which => mem_b (a_sp a) which end)
          || (ip <? 1073741824) || (1073741824 + 65536 <=? ip) then out_none
       else frame_of_spec k a sp (cfi_spec_real a E r (ip - 1073741824) (real_init a ctx valid)).
 Proof. exact real_end_to_end. Qed.
@@ -596,11 +599,20 @@ Print Assumptions c06_real_observation_complete.
 
 (* on the architectures of rounds 1-5 the new entry point is the old one (which C07 builds on) *)
 Theorem c06_real_entry_point_extends :
-  forall k ctx valid stackbase stack initaddr initsize init deltas, k < 3 ->
+  forall k ctx valid stackbase stack initaddr initsize init deltas, k < 3 -> stack_ok stackbase stack = true ->
     run_real2_gen k ctx valid stackbase stack initaddr initsize init deltas =
     run_real_gen k ctx valid stackbase stack initaddr initsize init deltas.
 Proof. exact run_real2_old. Qed.
 Print Assumptions c06_real_entry_point_extends.
+
+(* walk_stack's own precondition: a stack memory without a range — empty, or base + size beyond u64 — ends the walk
+   before any frame is unwound, whatever the call frame information says *)
+Theorem c06_no_stack_no_frame :
+  forall k ctx valid stackbase stack initaddr initsize init deltas,
+    (blen stack = 0 \/ two64 <= stackbase + blen stack) ->
+    run_real2_gen k ctx valid stackbase stack initaddr initsize init deltas = out_none.
+Proof. exact no_stack_no_frame. Qed.
+Print Assumptions c06_no_stack_no_frame.
 
 (* the register width check and the alias resolution of CfiStackWalker, on every architecture table:
    set_caller_register(name, v) (and set_cfa / set_ra, which are the same write to the sp / ip register) succeeds iff
@@ -658,19 +670,20 @@ Qed.
 
 (* MIPS, 32-bit view: the evaluator sees the low 32 bits of a callee register (s0 = 2^32 + 3 reads as 3), the caller
    context keeps the 64-bit slot of a forwarded register; sp is among the forwarded registers and is overwritten by
-   the CFA; the answer is the one walk_stack gave for this input *)
+   the CFA; the answers are those walk_stack gave for these inputs (a one-byte stack memory; with an empty one no frame) *)
 Example c06_nonvacuous_end_to_end_mips :
   let ctx := [(bs "pc", 1073742080); (bs "sp", 2147483648); (bs "fp", 5); (bs "s0", 4294967299); (bs "gp", 77); (bs "ra", 9)] in
   let init := bs ".cfa: sp 16 + .ra: 1073742080 s1: s0 1 +" in
   let r := mkCfi (0, init) 4096 [] in
   ctx_wf ctx /\ all_documented r 256 /\ real_documented_nonaliasing mips32 r 256 /\
-  o_regs (run_real2_gen 4 ctx (Some [bs "pc"; bs "sp"; bs "s0"]) 2147483648 [] 0 4096 init []) =
+  o_regs (run_real2_gen 4 ctx (Some [bs "pc"; bs "sp"; bs "s0"]) 2147483648 [0] 0 4096 init []) =
     [(bs "sp", 2147483664); (bs "pc", 1073742080); (bs "s0", 4294967299); (bs "s1", 4)] /\
-  o_regs (run_real2_gen 5 ctx (Some [bs "pc"; bs "sp"; bs "s0"]) 2147483648 [] 0 4096 init []) =
-    [(bs "sp", 2147483664); (bs "pc", 1073742080); (bs "s0", 4294967299); (bs "s1", 4294967300)].
+  o_regs (run_real2_gen 5 ctx (Some [bs "pc"; bs "sp"; bs "s0"]) 2147483648 [0] 0 4096 init []) =
+    [(bs "sp", 2147483664); (bs "pc", 1073742080); (bs "s0", 4294967299); (bs "s1", 4294967300)] /\
+  o_status (run_real2_gen 4 ctx (Some [bs "pc"; bs "sp"; bs "s0"]) 2147483648 [] 0 4096 init []) = 0.
 Proof.
   split; [intros n v H; cbn [In] in H; repeat (destruct H as [H|H]; [injection H as _ <-; vm_compute; split; [discriminate|reflexivity]|]); contradiction|].
-  split; [|split; [|vm_compute; split; reflexivity]].
+  split; [|split; [|vm_compute; repeat split; reflexivity]].
   - intros ps H. vm_compute in H. inversion H; subst ps.
     repeat constructor; cbn [snd]; intro D; vm_compute in D; discriminate D.
   - unfold real_documented_nonaliasing.
@@ -764,6 +777,32 @@ Theorem c06_file_refines_spec :
 Proof. exact file_refines_spec. Qed.
 Print Assumptions c06_file_refines_spec.
 
+(* an INIT record without a range — size 0, or address + size beyond u64 (so also a record whose LAST byte is 2^64-1) —
+   is invisible: the record table, hence every lookup and every unwind step, is that of the file without it *)
+Theorem c06_rangeless_records_invisible :
+  forall (S : Type) (ops : wops S) p E r1 r r2 addr s, u64_file (r1 ++ r :: r2) ->
+    (c_size r = 0 \/ two64 <= fst (c_init r) + c_size r) ->
+    cfi_file_table p (r1 ++ r :: r2) = cfi_file_table p (r1 ++ r2) /\
+    gen_walk_file ops p E (r1 ++ r :: r2) addr s = gen_walk_file ops p E (r1 ++ r2) addr s.
+Proof.
+  exact (fun S ops p E r1 r r2 addr s H Hn =>
+    conj (rangeless_invisible p r1 r r2 H Hn) (rangeless_invisible_walk S ops p E r1 r r2 addr s H Hn)).
+Qed.
+Print Assumptions c06_rangeless_records_invisible.
+
+(* the order of the INIT records in the file does not matter — for ALL files, overlapping ones included, whose records
+   with a range have pairwise different ranges: permuting the records leaves the record table, every lookup and every
+   unwind step unchanged.  (Two records with the SAME range are the one case where file order decides.) *)
+Theorem c06_file_order_irrelevant :
+  forall (S : Type) (ops : wops S) p E rs rs' addr s, u64_file rs -> Permutation rs rs' -> NoDup (file_keys rs) ->
+    cfi_file_table p rs = cfi_file_table p rs' /\
+    gen_walk_file ops p E rs addr s = gen_walk_file ops p E rs' addr s.
+Proof.
+  exact (fun S ops p E rs rs' addr s H P ND =>
+    conj (file_order_irrelevant p rs rs' H P ND) (file_walk_order_irrelevant S ops p E rs rs' addr s H P ND)).
+Qed.
+Print Assumptions c06_file_order_irrelevant.
+
 (* non-vacuity, and what happens to OVERLAPPING INIT records (the answers are those of the real code): A = [16,47],
    B = [40,71] overlaps A, C has size 0, D = [2^64-16, 2^64-1] (end + 1 leaves u64), E = [72,79].  A wins the overlap;
    B is dropped as a whole — address 60, which only B covers, finds nothing; C and D are never found; E is found;
@@ -774,12 +813,16 @@ Example c06_nonvacuous_file_overlap :
   let C := mkCfi (100, bs ".cfa: 32 .ra: 5") 0 [] in
   let D := mkCfi (18446744073709551600, bs ".cfa: 40 .ra: 5") 16 [] in
   let E := mkCfi (72, bs ".cfa: 48 .ra: 5") 8 [] in
-  u64_file [A; B; C; D; E] /\
+  u64_file [A; B; C; D; E] /\ file_keys [A; B; C; D; E] = [(16, 47); (40, 71); (72, 79)] /\ NoDup (file_keys [A; B; C; D; E]) /\
   forall rs, rs = [A; B; C; D; E] \/ rs = [E; D; B; C; A] ->
     map (fun x => o_cfa (run_mock_file_gen 8 x [] 0 [] rs [])) [15; 20; 45; 48; 60; 72; 79; 80; 100; 18446744073709551608] =
     [None; Some 16; Some 16; None; None; Some 48; Some 48; None; None; None].
 Proof.
-  split.
+  split; [|split; [vm_compute; reflexivity|split]].
   - repeat constructor; vm_compute; try discriminate; reflexivity.
+  - assert (K : file_keys [mkCfi (16, bs ".cfa: 16 .ra: 8") 32 []; mkCfi (40, bs ".cfa: 24 .ra: 5") 32 []; mkCfi (100, bs ".cfa: 32 .ra: 5") 0 [];
+                           mkCfi (18446744073709551600, bs ".cfa: 40 .ra: 5") 16 []; mkCfi (72, bs ".cfa: 48 .ra: 5") 8 []]
+                = [(16, 47); (40, 71); (72, 79)]) by (vm_compute; reflexivity).
+    cbv zeta. rewrite K. repeat constructor; cbn [In]; intro Hx; repeat (destruct Hx as [Hx|Hx]; [discriminate Hx|]); exact Hx.
   - intros rs [->| ->]; vm_compute; reflexivity.
 Qed.
